@@ -315,6 +315,12 @@ def build() -> Check:
                 bad.append(("the EXECUTION SUCCEED record does not carry the serialised result", t))
     ck.floor("wrapper_succeeded_traces", n_succ, 2)
     ck.ob("R5.wrapper-success-after-record", fn_construct(wrapper), not bad, (bad[0][0] + ": " + trace_sig(bad[0][1])[-600:]) if bad else "")
+    # R2 the mailbox itself: CompletionEvent stores the error before it releases the waiter, and the waiter reads it after it was released (r7_C03 / r7_C06)
+    from sa.common import completion_event_publication
+    (ce_set, ce_wait), ce_rules, ce_an = completion_event_publication(prog)
+    ck.analysed["completion_event"] = ce_an
+    for suffix, ok, detail in ce_rules:
+        ck.ob(f"R2.completion-event-" + suffix, fn_construct(ce_wait if suffix.startswith("slot") else ce_set), ok, detail + ("" if ok else " - the producer returns to user code as if the record had been accepted"))
     return ck
 
 
